@@ -1,7 +1,7 @@
 (* C07 — property theorems. Nothing but statements closed by `exact <lemma>`, Print Assumptions beneath each,
    and the Examples (witness schedules: hypotheses are satisfiable, the three repaired defects stay documented). *)
 From Coq Require Import List Bool Arith NArith.
-From C07 Require Import Model ProofsInv ProofsIdx ProofsSafe ProofsCount.
+From C07 Require Import Model ProofsInv ProofsIdx ProofsSafe ProofsCount ProofsFetch.
 Import ListNotations.
 
 (* thm:C07_handover_no_gap, part 1 — the proxyFrac automaton. In EVERY state reachable by ANY label list (any
@@ -83,6 +83,51 @@ Theorem C07_reader_safe_all_token_last :
     In lid (post f 0%N) -> ldoc f lid d -> memN t (d_toks d) = true -> In lid (post f t).
 Proof. exact all_token_last. Qed.
 Print Assumptions C07_reader_safe_all_token_last.
+
+(* thm:C07_reader_safe, "fetched immediately" — what holds for an ID that an EARLIER search returned. `published f y`:
+   y has a position in a registered block of f, its MID is inside f's published range (Contains routes the fetch to
+   f), and one of its LIDs is in the all-posting.
+   (a) every ID a stepwise search on the active fraction returns is published in that fraction, and stays published in
+       every later state, whatever any thread does (ls2 arbitrary);
+   (b) a fetch of a published ID through a list entry served by the SEALED provider (hand-over finished) finds it;
+   (c) a fetch of a published ID served by the ACTIVE provider parks at fetch.start with the ID routed to this
+       fraction, and whatever happens before it continues (ls3 arbitrary, the reader itself untouched), its answer has
+       the document: the 5d51c58 "newer than the snapshot" not-found can only hit documents that were NOT yet
+       published when the fetch's provider was created.
+   Not covered: a fraction retention deleted meanwhile (active = sealed = nil: the fetch answers not-found). *)
+Theorem C07_fetch_after_search_published :
+  forall c n ls r x g q pc a b m nn s p ids ls2 y,
+    v_all_last (c_ver c) = true ->
+    let st := exec c (init c n) ls in
+    nth_error (rs st) (N.to_nat r) = Some x -> r_op x = RSearch g q pc a b m nn s p ->
+    snd (step c st (LR r)) = ORes ids -> In y ids ->
+    published (getf (exec c (fst (step c st (LR r))) ls2) g) y.
+Proof. exact search_then_published. Qed.
+Print Assumptions C07_fetch_after_search_published.
+
+Theorem C07_fetch_published_sealed :
+  forall c n ls r j ids x g y k,
+    let st := exec c (init c n) ls in
+    nth_error (rs st) r = Some x -> r_op x = RIdle -> nth_error (r_snap x) j = Some g ->
+    g < length (fracs st) ->
+    f_act (getf st g) = false -> f_sld (getf st g) = true -> f_ssui (getf st g) = false ->
+    published (getf st g) y -> nth_error ids k = Some y ->
+    exists bodies body, snd (step_fb c st r j ids) = OFetch bodies /\ nth_error bodies k = Some (Some body).
+Proof. exact fb_sealed. Qed.
+Print Assumptions C07_fetch_published_sealed.
+
+Theorem C07_fetch_published_active :
+  forall c st r j ids x g y k ls3,
+    v_fetch_guard (c_ver c) = true ->
+    nth_error (rs st) (N.to_nat r) = Some x -> r_op x = RIdle -> nth_error (r_snap x) (N.to_nat j) = Some g ->
+    g < length (fracs st) -> f_act (getf st g) = true ->
+    published (getf st g) y -> nth_error ids k = Some y ->
+    let st' := fst (step c st (LFB r j ids)) in
+    snd (step c st (LFB r j ids)) = OHook 24 /\
+    forall st3, st3 = exec c st' ls3 -> nth_error (rs st3) (N.to_nat r) = nth_error (rs st') (N.to_nat r) ->
+      exists bodies body, snd (step c st3 (LR r)) = OFetch bodies /\ nth_error bodies k = Some (Some body).
+Proof. exact fetch_active_chain. Qed.
+Print Assumptions C07_fetch_published_active.
 
 (* posting ⊆ appended LIDs: every LID in a token's sorted list or queue is below len(MIDs) of its fraction *)
 Theorem C07_reader_safe_postings_within_ids :
